@@ -290,6 +290,15 @@ func (y *yieldStorage) Delete(key string) error {
 	if f := y.w.faultAt("disk." + y.name + ".delete"); f != "" {
 		y.w.run.Fault("disk.delete.err")
 		y.w.run.S.Log("store", "%s delete %s -> injected error", y.name, key)
+		if y.name == "res" {
+			// DEL and the pod collection release the pool before they delete the record: after a
+			// failed delete the record may name what the pool no longer holds (known finding K2)
+			for _, p := range y.w.pods {
+				if ns+"/"+p.spec.Name == key {
+					p.poolIntact = false
+				}
+			}
+		}
 		return fmt.Errorf("injected disk error")
 	}
 	if y.name == "res" {
@@ -460,6 +469,12 @@ func (w *World) checkRecordDelete(key string) {
 		w.run.Eval()
 		// the record belongs to the pod instance that made the last successful ADD; a namesake
 		// created since is another pod (it has no record yet)
+		if p.inflight == 0 && (!p.exists || (p.recUID != "" && p.recUID != p.uid)) {
+			// the collection gives up the record of a pod instance that is gone: the reference
+			// model of C04/C01 forgets what that instance held
+			p.held = false
+			p.recCID, p.recV4, p.recV6 = "", "", ""
+		}
 		if p.exists && p.inflight == 0 && (p.recUID == "" || p.recUID == p.uid) {
 			w.run.Violate("C09", "preserve", "record-of-existing-pod-deleted", "record of pod %s deleted with no DEL in flight while the pod exists in the API server (live sandbox: %v)", p.spec.Name, p.sbReady)
 		}
